@@ -1,5 +1,6 @@
 import PygVerif.Generated
 import PygVerif.Lemmas.Selector
+import PygVerif.Model.Proto
 /-!
 # C01 — Nothing outside the document root is ever read, listed, run or revealed
 
@@ -68,6 +69,37 @@ theorem secure_path_stays_under_root (root : List Str) {s : Str} (hs : secure s 
 theorem secure_path_is_root_plus_components (root : List Str) {s : Str} (hs : secure s = true) :
     norm (root ++ splitOn 47 s) = norm root ++ (splitOn 47 s).filter plainComp :=
   lexical_containment root _ (fun c hc => (secure_components hs c hc).1)
+
+/-! ### 4. one decoding layer, then the filter -/
+
+/-- HTTP(S): the selector handed to the handlers is `slashnormalize (unquote path)` where `path`
+    is the request target up to the first `?` — percent-decoding happens exactly once and the
+    filter is evaluated on its result. -/
+theorem http_selector_decoded_once (w q : Str) (nv : Bool) (c : Conn) :
+    (parseRequest w q nv .http c).selector =
+      slashnormalize (unquote ((splitOn 63 ((requestParts c.line)[1]?.getD [])).headD [])) := by
+  simp [parseRequest]
+
+theorem spartan_selector_decoded_once (w q : Str) (nv : Bool) (c : Conn) (h path n : Str)
+    (hs : splitOn 32 (strip c.line) = [h, path, n]) :
+    (parseRequest w q nv .spartan c).selector = slashnormalize (unquote path) := by
+  simp [parseRequest, hs]
+
+/-- Gopher selectors are never percent-decoded: what the filter sees is the literal field -/
+theorem gopher_selector_literal (w q : Str) (nv : Bool) (c : Conn) :
+    (parseRequest w q nv .gopher c).selector = slashnormalize ((requestList c.line).headD []) := by
+  simp [parseRequest]
+
+/-- a doubly encoded climb decodes to a *literal* `%2e%2e%2f`, which is an ordinary file name -/
+theorem double_encoding_inert :
+    unquote (lit "%252e%252e%252f") = lit "%2e%2e%2f" ∧ secure (lit "/%2e%2e%2fsecret") = true := by
+  decide +kernel
+
+/-- ... while one layer exposes the climb to the filter -/
+theorem single_encoding_exposed :
+    unquote (lit "/%2e%2e%2fsecret") = lit "/../secret" ∧ secure (unquote (lit "/%2e%2e%2fsecret")) = false ∧
+    secure (unquote (lit "/a%5c%5cb")) = false ∧ secure (unquote (lit "/a%00")) = false := by
+  decide +kernel
 
 /-! ### non-vacuity and sharpness -/
 
